@@ -17,6 +17,8 @@ func checkC14(c *Check) {
 	p := c.P
 	c.configuredHoldTimeProvenance("C14.1 configured-hold-time")
 	c.routerIDAccepted("C14.1 router-id-source")
+	c.codecContracts("C14.1 codec-effects")
+	c.specConstants("C14.1 spec-constants", "openMessageType", "asTrans", "capabilityOptionalParamType", "CAP_FOUR_OCTET_AS", "headerLength")
 	fn := p.Fn("newOpenMessage")
 	if fn == nil || len(fn.Params) != 4 {
 		c.undecided("C14.anchor", "newOpenMessage", "signature", "-", "expected (asn, holdTime, bgpID, caps)")
